@@ -106,10 +106,10 @@ func init() {
 					for _, ch := range u.changes {
 						if ch.rows != nil {
 							t := hh.tables[ch.rows.table]
-							if want[t.db+"."+t.name] == nil {
-								want[t.db+"."+t.name] = map[uint64]bool{}
+							if want[t.db+"\x00"+t.name] == nil {
+								want[t.db+"\x00"+t.name] = map[uint64]bool{}
 							}
-							want[t.db+"."+t.name][t.id] = true
+							want[t.db+"\x00"+t.name][t.id] = true
 						}
 					}
 				}
